@@ -119,6 +119,10 @@ def image_masks(shape, tier):
     idx = np.arange(size).reshape(shape)
     pats = [np.zeros(shape, int), np.ones(shape, int), (idx % 2 == 0).astype(int),
             (np.indices(shape)[0] == 0).astype(int)]
+    # every selected-pixel COUNT 0..size occurs (first k and last k pixels in storage order), so that a
+    # shortcut keyed on how many pixels are selected cannot hide
+    for k in range(size + 1):
+        pats += [(idx < k).astype(int), (idx >= size - k).astype(int)]
     if tier == 'thorough':
         pats += [(idx % 3 == 1).astype(int), (np.indices(shape)[-1] == shape[-1] - 1).astype(int)]
         if size <= 6:
